@@ -1,5 +1,6 @@
 import AmVerif.Lemmas.TopoGraph
 import AmVerif.Lemmas.Converge
+import AmVerif.Lemmas.Settle
 import AmVerif.Model.History
 import AmVerif.Lemmas.World
 import AmVerif.Gen.Tables
@@ -24,6 +25,13 @@ necessary by a concrete counterexample (`C05_full_statement_false_miss`,
 `C05_full_statement_false_rewire`). Reads under `no_record`, on helper threads, inside
 `catch_unwind(no_record(..))` and through `load_owned` are outside the statement (a tracked hit-only
 run meets none of them), as are assets of types that are not hot-reloaded.
+**Loading establishes and preserves `Settled`** (`C05_load_settles_partial`, over histories of loads and
+`hot_reload`s `C05_history_settled_partial`, combined with a pass `C05_load_edit_reload_converges_partial`):
+after a load and after the reloader has taken its registrations, every registered cached asset —
+those the load cached on the way included — is settled, under the named hypotheses `CleanLoad` (no
+absorbed failure of a nested load, no `get_cached` probe of a key that is cached before the load
+returns) and `NoProbedKeyFilled`; each is necessary (`C05_load_settles_false_absorbed`,
+`C05_load_settles_false_probe`, `C05_load_preserves_false_fill`). No hypothesis on fuel or result.
 -/
 namespace AmVerif.Props.C05
 open AmVerif.Gen AmVerif.Model AmVerif.Lemmas.TopoGraph AmVerif.Lemmas.Topo
@@ -609,6 +617,421 @@ theorem C05_full_statement_false_miss :
     rank_of_entries (by decide), rfl, by decide, exEnv_unchanged _ _ _ _, fun _ _ => rfl, by decide, rfl, rfl,
     fun h => absurd (noMiss_check_of h) (by decide), reloadsReturn_of_check (by decide),
     noRewire_of_check (by decide), staleAt_of_check (by decide), by decide, by decide⟩
+
+/-! ## Loading establishes and preserves `Settled`
+
+`Lemmas/Settle.lean`. The statement "after a load (handle or error) and after the reloader has taken
+the registrations, everything registered and cached is settled" is **false** of the code and of the
+model for `Plain` loaders in an all-hot environment, in two situations (`C05_load_settles_false_absorbed`,
+`C05_load_settles_false_probe`), and `Settled` is not preserved by a later load in a third
+(`C05_load_preserves_false_fill`). They are excluded by named hypotheses: `CleanLoad` on the load
+(= `cleanRun`: no absorbed failure, no `get_cached` probe of a key that is cached before the load
+returns) and `NoProbedKeyFilled` relative to what was registered before. Each is necessary. -/
+
+/-- **One API load establishes and preserves `Settled`** (partial: `hclean`, `hfill`).
+
+`env` without fault plan; `s`, `r`: the cache and the reloader's data, channel drained, everything
+registered and cached settled, dependency index exact.
+* `hclean` — `CleanLoad`: the evaluation of `load(key)` is a clean loading run (`cleanRun`), i.e. on the
+  path it takes — nested loader bodies included — plain constructors only and every look-up recorded
+  (hot types, cache with reloader: this is what `Env.Hot` and `Prog.Plain` give, required on the path
+  only), **no absorbed failure** (when a nested load fails the loader that asked for it does not go on
+  to return a value), **no probe of a key that gets filled** (a `get_cached` that finds nothing is for
+  a key still absent when the load returns); a lost keep-first insertion (the key loaded again while
+  its own loader runs) needs no hypothesis;
+* `hfill` — `NoProbedKeyFilled`: the load caches no key that an asset registered before depends on
+  while it is absent.
+No hypothesis on the fuel or on the result: the conclusion holds whether the load returns a handle, an
+error, panics or runs out of fuel (re-evaluations after the load only hit: `hitRun_fuel`).
+
+Conclusion: after the load and after the reloader has taken the `AddAsset` messages, every
+registered, cached, dynamic asset — including all the assets the load cached on the way — holds what
+re-evaluating its loader returns and its node holds exactly what that re-evaluation reads; the index
+is exact; the channel is drained. -/
+theorem C05_load_settles_partial (env : Env) (fuel : Nat) (s : St) (r : RSt) (key : Key)
+    (hS : env.Steady) (hdrained : s.out = []) (hset : Settled env fuel s r.graph) (hG : GraphOK r.graph)
+    (hclean : CleanLoad env fuel s key)
+    (hfill : NoProbedKeyFilled s (step env fuel s (.load key)).1 r.graph) :
+    Settled env fuel (processMsgs (step env fuel s (.load key)).1 r).1
+      (processMsgs (step env fuel s (.load key)).1 r).2.graph ∧
+    GraphOK (processMsgs (step env fuel s (.load key)).1 r).2.graph ∧
+    (processMsgs (step env fuel s (.load key)).1 r).1.out = [] := by
+  obtain ⟨h1, h2⟩ := load_settles hS key hdrained hset hclean hfill
+  exact ⟨h1, C05_processMsgs_graphOK _ _ hG, h2⟩
+
+/-- **Read-back of a clean load**: every registration a clean run sends is for an asset that, in the
+cache the load ends in, holds what re-evaluating its loader returns, and lists exactly what that
+re-evaluation reads (the re-evaluation needs no more fuel than the load had). -/
+theorem C05_clean_registrations_good (env : Env) (hS : env.Steady) (fuel : Nat) (s : St) (p : Prog)
+    (hclean : cleanRun env (eval env fuel s p).1 fuel s p = true) :
+    ∀ m, m ∈ (eval env fuel s p).1.out → m ∈ s.out ∨ ∃ k D, m = .addAsset k D ∧ MsgGood env fuel (eval env fuel s p).1 k D :=
+  clean_msgs hS fuel (fun _ h => h) fuel p s (Nat.le_refl _) hclean (St.Le.refl _)
+
+/-- **Histories of loads and `hot_reload`s** (partial), from the empty cache and an empty reloader,
+under one environment without fault plan: if every load of the history satisfies `LoadOK` in the
+state it starts from (`CleanLoad`, `NoProbedKeyFilled`, and the same for the registrations still in
+the channel: `NoPendingKeyFilled`), then after **every** `hot_reload` step everything registered and
+cached is settled, the index is exact and the channel is drained. Loads need not be separated by
+`hot_reload`s. `LoadHist` also admits `get_or_insert` (a static entry; same two no-fill hypotheses), the
+operations that leave the cache as it is (`get_cached`, `contains`), and `remove` / `take` of a key on which
+nothing registered and cached (and no registration still in the channel) depends (`NoDependentOn`;
+necessary: `C05_remove_breaks_settled`). Not covered: `clear` (its `Clear` message and the registrations
+still in the channel for entries that are gone need a weaker notion of good registration),
+`load_owned` (registers a key it does not cache; its loader is re-run, not read back),
+`notify` / `enhance` / edits (that is `C05_hot_reload_converges_partial`). -/
+theorem C05_history_settled_partial (env : Env) (hS : env.Steady) (fuel : Nat) (h : List (Env × HOp))
+    (hh : LoadHist env fuel h ({}, {})) :
+    ∀ h1 h2, h = h1 ++ (env, .hotReload) :: h2 →
+      Settled env fuel (runH fuel (h1 ++ [(env, .hotReload)]) ({}, {})).1 (runH fuel (h1 ++ [(env, .hotReload)]) ({}, {})).2.graph ∧
+      GraphOK (runH fuel (h1 ++ [(env, .hotReload)]) ({}, {})).2.graph ∧
+      (runH fuel (h1 ++ [(env, .hotReload)]) ({}, {})).1.out = [] := by
+  intro h1 h2 e
+  obtain ⟨j1, j2⟩ := (loads_settle hS hh (HInv.init env fuel)).2 h1 h2 e
+  exact ⟨j1, C05_history_keeps_graphOK fuel _ _ graphOK_nil, j2⟩
+
+/-- **Non-vacuity** with the other admitted operations: `load b`, `get_or_insert z`, `get_cached e`, `hot_reload` -/
+example :
+    Settled (exEnv [1, 0] [10]) 10
+      (runH 10 ([(exEnv [1, 0] [10], .api (.load kb)), (exEnv [1, 0] [10], .api (.getOrInsert ⟨0, "z"⟩ (.int 5))),
+        (exEnv [1, 0] [10], .api (.getCached ke))] ++ [(exEnv [1, 0] [10], .hotReload)]) ({}, {})).1
+      (runH 10 ([(exEnv [1, 0] [10], .api (.load kb)), (exEnv [1, 0] [10], .api (.getOrInsert ⟨0, "z"⟩ (.int 5))),
+        (exEnv [1, 0] [10], .api (.getCached ke))] ++ [(exEnv [1, 0] [10], .hotReload)]) ({}, {})).2.graph :=
+  (C05_history_settled_partial (exEnv [1, 0] [10]) (exEnv_steady _ _) 10
+    [(exEnv [1, 0] [10], .api (.load kb)), (exEnv [1, 0] [10], .api (.getOrInsert ⟨0, "z"⟩ (.int 5))),
+     (exEnv [1, 0] [10], .api (.getCached ke)), (exEnv [1, 0] [10], .hotReload)]
+    (.load kb _ _ _ (loadOK_of_check (by decide))
+      (.insert _ _ _ _ _ (noProbedKeyFilled_of_check (by decide)) (noPendingKeyFilled_of_check (by decide))
+        (.look (.getCached ke) _ _ rfl (.hotReload _ _ (.nil _)))))
+    [(exEnv [1, 0] [10], .api (.load kb)), (exEnv [1, 0] [10], .api (.getOrInsert ⟨0, "z"⟩ (.int 5))),
+     (exEnv [1, 0] [10], .api (.getCached ke))] [] rfl).1
+
+/-- **Non-vacuity** with `remove`: `load b` (loads `e`), `hot_reload`, `remove b` (nothing depends on `b`),
+`load b` again (a miss that hits `e`; the registration replaces the stale one), `hot_reload` -/
+example :
+    Settled (exEnv [1, 0] [10]) 10
+      (runH 10 ([(exEnv [1, 0] [10], .api (.load kb)), (exEnv [1, 0] [10], .hotReload), (exEnv [1, 0] [10], .api (.remove kb)),
+        (exEnv [1, 0] [10], .api (.load kb))] ++ [(exEnv [1, 0] [10], .hotReload)]) ({}, {})).1
+      (runH 10 ([(exEnv [1, 0] [10], .api (.load kb)), (exEnv [1, 0] [10], .hotReload), (exEnv [1, 0] [10], .api (.remove kb)),
+        (exEnv [1, 0] [10], .api (.load kb))] ++ [(exEnv [1, 0] [10], .hotReload)]) ({}, {})).2.graph :=
+  (C05_history_settled_partial (exEnv [1, 0] [10]) (exEnv_steady _ _) 10
+    [(exEnv [1, 0] [10], .api (.load kb)), (exEnv [1, 0] [10], .hotReload), (exEnv [1, 0] [10], .api (.remove kb)),
+     (exEnv [1, 0] [10], .api (.load kb)), (exEnv [1, 0] [10], .hotReload)]
+    (.load kb _ _ _ (loadOK_of_check (by decide))
+      (.hotReload _ _ (.remove kb _ _ _ (noDependentOn_of_check (by decide))
+        (.load kb _ _ _ (loadOK_of_check (by decide)) (.hotReload _ _ (.nil _))))))
+    [(exEnv [1, 0] [10], .api (.load kb)), (exEnv [1, 0] [10], .hotReload), (exEnv [1, 0] [10], .api (.remove kb)),
+     (exEnv [1, 0] [10], .api (.load kb))] [] rfl).1
+
+/-- the cache and the reloader after `load(key)` and after the reloader has taken the registrations -/
+def loadDrain (env : Env) (fuel : Nat) (x : St × RSt) (key : Key) : St × RSt :=
+  processMsgs (step env fuel x.1 (.load key)).1 x.2
+
+/-- **Load, edit, notify, `hot_reload`** (partial). `x = (s, r)`: channel drained, everything settled
+under `env`, index exact, reloader alive, local mode. `load(key)` under `env` (`hclean`, `hfill` as in
+`C05_load_settles_partial`), the reloader takes the registrations (`loadDrain`); the source is edited:
+`env'` differs from `env` only on `changed` (`hfile`, `hdir`); every changed entry is notified
+(`handleEvents`: the graph keeps the ones it knows); `hot_reload()` under `env'`. Under the three named
+hypotheses on that pass (`hmiss` = `NoMissInPass`, excludes F-C05d; `hret` = `ReloadsReturn`;
+`hrewire` = `NoRewireOntoPending`, excludes F-C05e) and acyclic look-ups (`hrank`), afterwards every
+registered, cached, dynamic asset — those the load cached included — is settled under the NEW source. -/
+theorem C05_load_edit_reload_converges_partial (env env' : Env) (fuel : Nat) (x : St × RSt) (key : Key)
+    (changed : List Dep) {rank : Dep → Nat}
+    (hS : env.Steady) (hS' : env'.Steady) (hL : SameLoaders env env')
+    (hdrained : x.1.out = []) (hset : Settled env fuel x.1 x.2.graph) (hG : GraphOK x.2.graph)
+    (hlive : x.2.dead = false) (hlocal : x.2.static_ = false)
+    (hclean : CleanLoad env fuel x.1 key)
+    (hfill : NoProbedKeyFilled x.1 (step env fuel x.1 (.load key)).1 x.2.graph)
+    (hfile : ∀ id ext, Dep.file id ext ∉ changed → env'.read 0 id ext = env.read 0 id ext)
+    (hdir : ∀ id, Dep.dir id ∉ changed → env'.readDir 0 id = env.readDir 0 id)
+    (hrank : ∀ a rs b, (loadDrain env fuel x key).2.graph.rdepsOf a = some rs → b ∈ rs → rank b < rank a)
+    (hfuel : (loadDrain env fuel x key).2.graph.length + 1 ≤ fuel)
+    (hmiss : NoMissInPass env' fuel (updateSteps env' fuel
+      (handleEvents env' fuel (loadDrain env fuel x key).1 (loadDrain env fuel x key).2 changed).1
+      (handleEvents env' fuel (loadDrain env fuel x key).1 (loadDrain env fuel x key).2 changed).2))
+    (hret : ReloadsReturn env' fuel (updateSteps env' fuel
+      (handleEvents env' fuel (loadDrain env fuel x key).1 (loadDrain env fuel x key).2 changed).1
+      (handleEvents env' fuel (loadDrain env fuel x key).1 (loadDrain env fuel x key).2 changed).2))
+    (hrewire : NoRewireOntoPending env' fuel (updateSteps env' fuel
+      (handleEvents env' fuel (loadDrain env fuel x key).1 (loadDrain env fuel x key).2 changed).1
+      (handleEvents env' fuel (loadDrain env fuel x key).1 (loadDrain env fuel x key).2 changed).2)) :
+    Settled env' fuel
+      (hotReload env' fuel (handleEvents env' fuel (loadDrain env fuel x key).1 (loadDrain env fuel x key).2 changed).1
+        (handleEvents env' fuel (loadDrain env fuel x key).1 (loadDrain env fuel x key).2 changed).2).1
+      (hotReload env' fuel (handleEvents env' fuel (loadDrain env fuel x key).1 (loadDrain env fuel x key).2 changed).1
+        (handleEvents env' fuel (loadDrain env fuel x key).1 (loadDrain env fuel x key).2 changed).2).2.graph ∧
+    (hotReload env' fuel (handleEvents env' fuel (loadDrain env fuel x key).1 (loadDrain env fuel x key).2 changed).1
+        (handleEvents env' fuel (loadDrain env fuel x key).1 (loadDrain env fuel x key).2 changed).2).2.dead = false := by
+  obtain ⟨s, r⟩ := x
+  have hl : Settled env fuel (loadDrain env fuel (s, r) key).1 (loadDrain env fuel (s, r) key).2.graph ∧
+      GraphOK (loadDrain env fuel (s, r) key).2.graph ∧ (loadDrain env fuel (s, r) key).1.out = [] :=
+    C05_load_settles_partial env fuel s r key hS hdrained hset hG hclean hfill
+  have hd1 : (loadDrain env fuel (s, r) key).2.dead = false := (processMsgs_dead _ _).trans hlive
+  have hs1 : (loadDrain env fuel (s, r) key).2.static_ = false := (processMsgs_static _ _).trans hlocal
+  generalize loadDrain env fuel (s, r) key = x1 at *
+  obtain ⟨s1, r1⟩ := x1
+  obtain ⟨l1, l2, l3⟩ := hl
+  rw [handleEvents_local env' fuel s1 r1 changed hd1 hs1 l3] at hmiss hret hrewire ⊢
+  exact C05_hot_reload_converges_partial env env' fuel _ _ changed hS hS' hL l1 l2 hrank hd1 hfuel l3 hs1 hfile hdir
+    (fun d hd hg => mem_keepEvents _ changed _ d hd hg) hmiss hret hrewire
+
+/-- **Non-vacuity** of `C05_load_edit_reload_converges_partial`: the chain `b → e` of the examples
+above, with the initial state produced by the load theorem — empty cache, empty reloader, `load b`
+(which loads `e`), the reloader takes the two registrations; `e.s` is edited from `10` to `20` and
+notified; `hot_reload`. All hypotheses hold; the computed result is `e = 20`, `b = 21`. -/
+example :
+    Settled (exEnv [1, 0] [20]) 10
+      (hotReload (exEnv [1, 0] [20]) 10
+        (handleEvents (exEnv [1, 0] [20]) 10 (loadDrain (exEnv [1, 0] [10]) 10 ({}, {}) kb).1
+          (loadDrain (exEnv [1, 0] [10]) 10 ({}, {}) kb).2 [.file "e" "s"]).1
+        (handleEvents (exEnv [1, 0] [20]) 10 (loadDrain (exEnv [1, 0] [10]) 10 ({}, {}) kb).1
+          (loadDrain (exEnv [1, 0] [10]) 10 ({}, {}) kb).2 [.file "e" "s"]).2).1
+      (hotReload (exEnv [1, 0] [20]) 10
+        (handleEvents (exEnv [1, 0] [20]) 10 (loadDrain (exEnv [1, 0] [10]) 10 ({}, {}) kb).1
+          (loadDrain (exEnv [1, 0] [10]) 10 ({}, {}) kb).2 [.file "e" "s"]).1
+        (handleEvents (exEnv [1, 0] [20]) 10 (loadDrain (exEnv [1, 0] [10]) 10 ({}, {}) kb).1
+          (loadDrain (exEnv [1, 0] [10]) 10 ({}, {}) kb).2 [.file "e" "s"]).2).2.graph ∧
+    (hotReload (exEnv [1, 0] [20]) 10
+        (handleEvents (exEnv [1, 0] [20]) 10 (loadDrain (exEnv [1, 0] [10]) 10 ({}, {}) kb).1
+          (loadDrain (exEnv [1, 0] [10]) 10 ({}, {}) kb).2 [.file "e" "s"]).1
+        (handleEvents (exEnv [1, 0] [20]) 10 (loadDrain (exEnv [1, 0] [10]) 10 ({}, {}) kb).1
+          (loadDrain (exEnv [1, 0] [10]) 10 ({}, {}) kb).2 [.file "e" "s"]).2).2.dead = false :=
+  C05_load_edit_reload_converges_partial (exEnv [1, 0] [10]) (exEnv [1, 0] [20]) 10 ({}, {}) kb [.file "e" "s"]
+    (rank := exRank) (exEnv_steady _ _) (exEnv_steady _ _) (exEnv_same _ _ _ _)
+    rfl (settled_nil _ _ _) graphOK_nil rfl rfl (by decide) (noProbedKeyFilled_nil _ _)
+    (exEnv_unchanged_e _ _ _) (fun _ _ => rfl) (rank_of_entries (by decide)) (by decide)
+    (noMiss_of_check (by decide)) (reloadsReturn_of_check (by decide)) (noRewire_of_check (by decide))
+
+/-- the state the load theorem produces is the one the earlier examples built by hand, and the
+conclusion checked on the computed result -/
+example :
+    (loadDrain (exEnv [1, 0] [10]) 10 ({}, {}) kb).1.lookup ke = some ⟨.int 10, true, 0, false, 0⟩ ∧
+    (loadDrain (exEnv [1, 0] [10]) 10 ({}, {}) kb).1.lookup kb = some ⟨.int 11, true, 0, false, 1⟩ ∧
+    settledB (exEnv [1, 0] [10]) 10 (loadDrain (exEnv [1, 0] [10]) 10 ({}, {}) kb).1
+      (loadDrain (exEnv [1, 0] [10]) 10 ({}, {}) kb).2.graph = true ∧
+    (hotReload (exEnv [1, 0] [20]) 10
+        (handleEvents (exEnv [1, 0] [20]) 10 (loadDrain (exEnv [1, 0] [10]) 10 ({}, {}) kb).1
+          (loadDrain (exEnv [1, 0] [10]) 10 ({}, {}) kb).2 [.file "e" "s"]).1
+        (handleEvents (exEnv [1, 0] [20]) 10 (loadDrain (exEnv [1, 0] [10]) 10 ({}, {}) kb).1
+          (loadDrain (exEnv [1, 0] [10]) 10 ({}, {}) kb).2 [.file "e" "s"]).2).1.lookup kb =
+      some ⟨.int 21, true, 1, true, 1⟩ := by decide
+
+/-- **Non-vacuity** of `C05_history_settled_partial`: `load n` (loads `e`), `load b` (hits `e`) without
+a drain in between, `hot_reload`, `load e` (a hit), `hot_reload`. -/
+example :
+    Settled (exEnv [1, 0] [10]) 10
+      (runH 10 ([(exEnv [1, 0] [10], .api (.load kn)), (exEnv [1, 0] [10], .api (.load kb))] ++ [(exEnv [1, 0] [10], .hotReload)]) ({}, {})).1
+      (runH 10 ([(exEnv [1, 0] [10], .api (.load kn)), (exEnv [1, 0] [10], .api (.load kb))] ++ [(exEnv [1, 0] [10], .hotReload)]) ({}, {})).2.graph :=
+  (C05_history_settled_partial (exEnv [1, 0] [10]) (exEnv_steady _ _) 10
+    [(exEnv [1, 0] [10], .api (.load kn)), (exEnv [1, 0] [10], .api (.load kb)), (exEnv [1, 0] [10], .hotReload),
+     (exEnv [1, 0] [10], .api (.load ke)), (exEnv [1, 0] [10], .hotReload)]
+    (.load kn _ _ _ (loadOK_of_check (by decide))
+      (.load kb _ _ _ (loadOK_of_check (by decide))
+        (.hotReload _ _ (.load ke _ _ _ (loadOK_of_check (by decide)) (.hotReload _ _ (.nil _))))))
+    [(exEnv [1, 0] [10], .api (.load kn)), (exEnv [1, 0] [10], .api (.load kb))]
+    [(exEnv [1, 0] [10], .api (.load ke)), (exEnv [1, 0] [10], .hotReload)] rfl).1
+
+/-- **A history of loads, then edit, notify, `hot_reload`** (partial): the same as
+`C05_load_edit_reload_converges_partial` with the state before the edit produced by a whole history
+`h ++ [hot_reload]` of loads (`LoadHist`, every load `LoadOK`) from the empty cache and an empty reloader. -/
+theorem C05_history_edit_reload_converges_partial (env env' : Env) (fuel : Nat) (h : List (Env × HOp))
+    (changed : List Dep) {rank : Dep → Nat}
+    (hS : env.Steady) (hS' : env'.Steady) (hL : SameLoaders env env')
+    (hh : LoadHist env fuel (h ++ [(env, .hotReload)]) ({}, {}))
+    (hfile : ∀ id ext, Dep.file id ext ∉ changed → env'.read 0 id ext = env.read 0 id ext)
+    (hdir : ∀ id, Dep.dir id ∉ changed → env'.readDir 0 id = env.readDir 0 id)
+    (hrank : ∀ a rs b, (runH fuel (h ++ [(env, .hotReload)]) ({}, {})).2.graph.rdepsOf a = some rs → b ∈ rs → rank b < rank a)
+    (hfuel : (runH fuel (h ++ [(env, .hotReload)]) ({}, {})).2.graph.length + 1 ≤ fuel)
+    (hmiss : NoMissInPass env' fuel (updateSteps env' fuel
+      (handleEvents env' fuel (runH fuel (h ++ [(env, .hotReload)]) ({}, {})).1 (runH fuel (h ++ [(env, .hotReload)]) ({}, {})).2 changed).1
+      (handleEvents env' fuel (runH fuel (h ++ [(env, .hotReload)]) ({}, {})).1 (runH fuel (h ++ [(env, .hotReload)]) ({}, {})).2 changed).2))
+    (hret : ReloadsReturn env' fuel (updateSteps env' fuel
+      (handleEvents env' fuel (runH fuel (h ++ [(env, .hotReload)]) ({}, {})).1 (runH fuel (h ++ [(env, .hotReload)]) ({}, {})).2 changed).1
+      (handleEvents env' fuel (runH fuel (h ++ [(env, .hotReload)]) ({}, {})).1 (runH fuel (h ++ [(env, .hotReload)]) ({}, {})).2 changed).2))
+    (hrewire : NoRewireOntoPending env' fuel (updateSteps env' fuel
+      (handleEvents env' fuel (runH fuel (h ++ [(env, .hotReload)]) ({}, {})).1 (runH fuel (h ++ [(env, .hotReload)]) ({}, {})).2 changed).1
+      (handleEvents env' fuel (runH fuel (h ++ [(env, .hotReload)]) ({}, {})).1 (runH fuel (h ++ [(env, .hotReload)]) ({}, {})).2 changed).2)) :
+    Settled env' fuel
+      (hotReload env' fuel
+        (handleEvents env' fuel (runH fuel (h ++ [(env, .hotReload)]) ({}, {})).1 (runH fuel (h ++ [(env, .hotReload)]) ({}, {})).2 changed).1
+        (handleEvents env' fuel (runH fuel (h ++ [(env, .hotReload)]) ({}, {})).1 (runH fuel (h ++ [(env, .hotReload)]) ({}, {})).2 changed).2).1
+      (hotReload env' fuel
+        (handleEvents env' fuel (runH fuel (h ++ [(env, .hotReload)]) ({}, {})).1 (runH fuel (h ++ [(env, .hotReload)]) ({}, {})).2 changed).1
+        (handleEvents env' fuel (runH fuel (h ++ [(env, .hotReload)]) ({}, {})).1 (runH fuel (h ++ [(env, .hotReload)]) ({}, {})).2 changed).2).2.graph ∧
+    (hotReload env' fuel
+        (handleEvents env' fuel (runH fuel (h ++ [(env, .hotReload)]) ({}, {})).1 (runH fuel (h ++ [(env, .hotReload)]) ({}, {})).2 changed).1
+        (handleEvents env' fuel (runH fuel (h ++ [(env, .hotReload)]) ({}, {})).1 (runH fuel (h ++ [(env, .hotReload)]) ({}, {})).2 changed).2).2.dead = false := by
+  obtain ⟨hinv, hall⟩ := loads_settle hS hh (HInv.init env fuel)
+  obtain ⟨l1, l3⟩ := hall h [] rfl
+  have l2 : GraphOK (runH fuel (h ++ [(env, .hotReload)]) ({}, {})).2.graph := C05_history_keeps_graphOK fuel _ _ graphOK_nil
+  have hd1 := hinv.live
+  have hs1 := hinv.local_
+  generalize runH fuel (h ++ [(env, .hotReload)]) ({}, {}) = x1 at *
+  obtain ⟨s1, r1⟩ := x1
+  rw [handleEvents_local env' fuel s1 r1 changed hd1 hs1 l3] at hmiss hret hrewire ⊢
+  exact C05_hot_reload_converges_partial env env' fuel _ _ changed hS hS' hL l1 l2 hrank hd1 hfuel l3 hs1 hfile hdir
+    (fun d hd hg => mem_keepEvents _ changed _ d hd hg) hmiss hret hrewire
+
+/-! ### The unrestricted load statement is false: three refutations
+
+Loaders of a tiny all-hot type table (all `Plain`): `x` returns `0`; `y` fails; `a` loads `y` and
+returns `1` whatever that gives (it absorbs the failure); `p` probes `x` with `get_cached`, and when `x`
+is absent loads it and returns `1`, else returns `2`; `q` probes `x` and returns `1` / `2`. -/
+
+def cxProg (id : String) : Prog :=
+  if id = "x" then .ret (.int 0)
+  else if id = "y" then .fail (.custom "no")
+  else if id = "a" then .load ⟨0, "y"⟩ fun _ => .ret (.int 1)
+  else if id = "p" then .getCached ⟨0, "x"⟩ fun r =>
+    match r with
+    | none => .load ⟨0, "x"⟩ fun _ => .ret (.int 1)
+    | some _ => .ret (.int 2)
+  else if id = "q" then .getCached ⟨0, "x"⟩ fun r =>
+    match r with
+    | none => .ret (.int 1)
+    | some _ => .ret (.int 2)
+  else .panic
+
+def cxEnv : Env :=
+  { read := fun _ id _ => .error ⟨true, "NotFound", id⟩
+    readDir := fun _ _ => .ok []
+    types := fun _ => { hot := true, prog := cxProg }
+    hasReloader := true }
+
+theorem cxEnv_steady : cxEnv.Steady := ⟨fun _ _ _ _ => rfl, fun _ _ _ => rfl, fun _ _ => rfl⟩
+theorem cxEnv_hot : cxEnv.Hot := ⟨rfl, fun _ => rfl⟩
+
+theorem cxEnv_plain : ∀ ty id, ((cxEnv.types ty).prog id).Plain := by
+  intro _ id
+  show (cxProg id).Plain
+  unfold cxProg
+  split
+  · exact .ret _
+  split
+  · exact .fail _
+  split
+  · exact .load _ _ (fun _ => .ret _)
+  split
+  · refine .getCached _ _ (fun r => ?_)
+    cases r
+    · exact .load _ _ (fun _ => .ret _)
+    · exact .ret _
+  split
+  · refine .getCached _ _ (fun r => ?_)
+    cases r <;> exact .ret _
+  · exact .panic
+
+/-- a registered, cached, dynamic asset whose re-evaluation is NOT a tracked hit-only run (it misses) -/
+def missAtB (env : Env) (fuel : Nat) (x : St × RSt) (k : Key) : Bool :=
+  match x.2.graph.get (.asset k), x.1.lookup k with
+  | some node, some c => node.typed && c.dyn && !reloadHit env fuel x.1 k
+  | _, _ => false
+
+theorem not_settled_of_miss {env : Env} {fuel : Nat} {x : St × RSt} {k : Key} (h : missAtB env fuel x k = true) :
+    ¬ Settled env fuel x.1 x.2.graph := by
+  unfold missAtB at h
+  cases hg : x.2.graph.get (.asset k) with
+  | none => rw [hg] at h; cases h
+  | some node =>
+    cases hc : x.1.lookup k with
+    | none => rw [hg, hc] at h; cases h
+    | some c =>
+      rw [hg, hc] at h
+      simp only [Bool.and_eq_true, Bool.not_eq_true'] at h
+      obtain ⟨⟨h1, h2⟩, h3⟩ := h
+      intro hs
+      have := (hs k node c hg h1 hc h2).hit
+      rw [h3] at this
+      cases this
+
+/-- **An absorbed failure: the load statement without `hclean` is false.** Every hypothesis of the
+unrestricted statement holds — environment without fault plan, all types hot, all loaders `Plain`,
+empty cache and reloader (settled, exact, drained) — and `load a` returns a handle. `a` loaded `y`,
+which failed, and went on: it is cached and registered with the dependency `y`, and `y` is not cached.
+Re-evaluating `a` misses `y`: it is not a tracked hit-only run, `a` is not settled. (A reload of `a`
+would load `y` behind the sort's back: F-C05d.) -/
+theorem C05_load_settles_false_absorbed :
+    ∃ (env : Env) (fuel : Nat) (s : St) (r : RSt) (key : Key),
+      env.Steady ∧ env.Hot ∧ (∀ ty id, ((env.types ty).prog id).Plain) ∧
+      s.out = [] ∧ Settled env fuel s r.graph ∧ GraphOK r.graph ∧
+      NoProbedKeyFilled s (step env fuel s (.load key)).1 r.graph ∧
+      (step env fuel s (.load key)).2 = .handle 0 (.int 1) ∧
+      ¬ CleanLoad env fuel s key ∧
+      reloadHit env fuel (loadDrain env fuel (s, r) key).1 key = false ∧
+      ¬ Settled env fuel (loadDrain env fuel (s, r) key).1 (loadDrain env fuel (s, r) key).2.graph :=
+  ⟨cxEnv, 10, {}, {}, ⟨0, "a"⟩, cxEnv_steady, cxEnv_hot, cxEnv_plain, rfl, settled_nil _ _ _, graphOK_nil,
+    noProbedKeyFilled_nil _ _, by decide, by decide, by decide,
+    not_settled_of_miss (x := loadDrain cxEnv 10 ({}, {}) ⟨0, "a"⟩) (k := ⟨0, "a"⟩) (by decide)⟩
+
+/-- **A probe of a key that gets filled: the load statement without `hclean` is false.** Same
+hypotheses; `load p` returns a handle. `p` probed `x` with `get_cached`, found nothing, loaded `x` and
+returned `1`. Now `x` is cached: re-evaluating `p` returns `2`. `p` holds `1`: stale from the start. -/
+theorem C05_load_settles_false_probe :
+    ∃ (env : Env) (fuel : Nat) (s : St) (r : RSt) (key : Key),
+      env.Steady ∧ env.Hot ∧ (∀ ty id, ((env.types ty).prog id).Plain) ∧
+      s.out = [] ∧ Settled env fuel s r.graph ∧ GraphOK r.graph ∧
+      NoProbedKeyFilled s (step env fuel s (.load key)).1 r.graph ∧
+      (step env fuel s (.load key)).2 = .handle 1 (.int 1) ∧
+      ¬ CleanLoad env fuel s key ∧
+      StaleAt env fuel (loadDrain env fuel (s, r) key) key ∧
+      reloadOut env fuel (loadDrain env fuel (s, r) key).1 key = .ok (.int 2) ∧
+      ¬ Settled env fuel (loadDrain env fuel (s, r) key).1 (loadDrain env fuel (s, r) key).2.graph :=
+  have hst : StaleAt cxEnv 10 (loadDrain cxEnv 10 ({}, {}) ⟨0, "p"⟩) ⟨0, "p"⟩ := staleAt_of_check (by decide)
+  ⟨cxEnv, 10, {}, {}, ⟨0, "p"⟩, cxEnv_steady, cxEnv_hot, cxEnv_plain, rfl, settled_nil _ _ _, graphOK_nil,
+    noProbedKeyFilled_nil _ _, by decide, by decide, hst, by decide, hst.not_settled⟩
+
+/-- **`Settled` is not preserved without `hfill`.** `q` was loaded (it probed `x`, found nothing,
+returned `1`) and registered: everything is settled (by the load theorem). Then `load x`: a clean load
+that returns a handle — and fills the key `q` probed. Re-evaluating `q` returns `2` now; `q` holds `1`.
+(In the code the dependency `q → x` is recorded, but the first load of `x` is not an event.) -/
+theorem C05_load_preserves_false_fill :
+    ∃ (env : Env) (fuel : Nat) (s : St) (r : RSt) (key : Key),
+      env.Steady ∧ env.Hot ∧ (∀ ty id, ((env.types ty).prog id).Plain) ∧
+      s.out = [] ∧ Settled env fuel s r.graph ∧ GraphOK r.graph ∧
+      CleanLoad env fuel s key ∧
+      (step env fuel s (.load key)).2 = .handle 1 (.int 0) ∧
+      ¬ NoProbedKeyFilled s (step env fuel s (.load key)).1 r.graph ∧
+      StaleAt env fuel (loadDrain env fuel (s, r) key) ⟨0, "q"⟩ ∧
+      ¬ Settled env fuel (loadDrain env fuel (s, r) key).1 (loadDrain env fuel (s, r) key).2.graph := by
+  have h0 := C05_load_settles_partial cxEnv 10 {} {} ⟨0, "q"⟩ cxEnv_steady rfl (settled_nil _ _ _) graphOK_nil
+    (by decide) (noProbedKeyFilled_nil _ _)
+  have hst : StaleAt cxEnv 10 (loadDrain cxEnv 10 (loadDrain cxEnv 10 ({}, {}) ⟨0, "q"⟩) ⟨0, "x"⟩) ⟨0, "q"⟩ :=
+    staleAt_of_check (by decide)
+  have hclean : CleanLoad cxEnv 10 (loadDrain cxEnv 10 ({}, {}) ⟨0, "q"⟩).1 ⟨0, "x"⟩ := by decide
+  refine ⟨cxEnv, 10, (loadDrain cxEnv 10 ({}, {}) ⟨0, "q"⟩).1, (loadDrain cxEnv 10 ({}, {}) ⟨0, "q"⟩).2, ⟨0, "x"⟩,
+    cxEnv_steady, cxEnv_hot, cxEnv_plain, h0.2.2, h0.1, h0.2.1, hclean, by decide, ?_, hst, hst.not_settled⟩
+  intro hfill
+  exact hst.not_settled
+    (C05_load_settles_partial cxEnv 10 _ _ ⟨0, "x"⟩ cxEnv_steady h0.2.2 h0.1 h0.2.1 hclean hfill).1
+
+/-- **`remove` of a key something depends on breaks `Settled`** (`NoDependentOn` is necessary): after
+`load b` (which loads `e`) and `hot_reload` everything is settled; `remove e`; now re-evaluating `b`
+misses `e` — it is not a tracked hit-only run (a reload of `b` would load `e` during the pass). -/
+theorem C05_remove_breaks_settled :
+    ∃ (env : Env) (fuel : Nat) (x : St × RSt) (key : Key),
+      env.Steady ∧ x.1.out = [] ∧ Settled env fuel x.1 x.2.graph ∧ GraphOK x.2.graph ∧
+      ¬ NoDependentOn x.1 x.2.graph key ∧
+      ¬ Settled env fuel (hstep fuel (env, .api (.remove key)) x).1 (hstep fuel (env, .api (.remove key)) x).2.graph := by
+  have h0 := C05_history_settled_partial (exEnv [1, 0] [10]) (exEnv_steady _ _) 10
+    [(exEnv [1, 0] [10], .api (.load kb)), (exEnv [1, 0] [10], .hotReload)]
+    (.load kb _ _ _ (loadOK_of_check (by decide)) (.hotReload _ _ (.nil _)))
+    [(exEnv [1, 0] [10], .api (.load kb))] [] rfl
+  have hbad : ¬ Settled (exEnv [1, 0] [10]) 10
+      (hstep 10 (exEnv [1, 0] [10], .api (.remove ke))
+        (runH 10 ([(exEnv [1, 0] [10], .api (.load kb))] ++ [(exEnv [1, 0] [10], .hotReload)]) ({}, {}))).1
+      (hstep 10 (exEnv [1, 0] [10], .api (.remove ke))
+        (runH 10 ([(exEnv [1, 0] [10], .api (.load kb))] ++ [(exEnv [1, 0] [10], .hotReload)]) ({}, {}))).2.graph :=
+    not_settled_of_miss (k := kb) (by decide)
+  refine ⟨exEnv [1, 0] [10], 10, _, ke, exEnv_steady _ _, h0.2.2, h0.1, h0.2.1, ?_, hbad⟩
+  intro hdep
+  have hinv : HInv (exEnv [1, 0] [10]) 10
+      (runH 10 ([(exEnv [1, 0] [10], .api (.load kb))] ++ [(exEnv [1, 0] [10], .hotReload)]) ({}, {})) :=
+    (loads_settle (exEnv_steady _ _) (.load kb _ _ _ (loadOK_of_check (by decide)) (.hotReload _ _ (.nil _)))
+      (HInv.init _ _)).1
+  have h2 := (HInv.step_remove (exEnv_steady _ _) (key := ke) hinv hdep).pending
+  exact hbad (by
+    have h3 := h2.drain (exEnv_steady _ _) (r := (hstep 10 (exEnv [1, 0] [10], .api (.remove ke))
+      (runH 10 ([(exEnv [1, 0] [10], .api (.load kb))] ++ [(exEnv [1, 0] [10], .hotReload)]) ({}, {}))).2)
+    exact h3)
 
 /-! Non-vacuity -/
 example : GraphOK (Graph.insertAsset [] (.asset ⟨0, "a"⟩) [.file "a" "s"]) :=
